@@ -10,6 +10,28 @@ _NOTE = ("Trusted base: the Python grammar/ast module; the canonicaliser (framel
          "numerical behaviour. assert is FRAME's rejection mechanism (python -O voids reject clauses).")
 
 CLAIMED = {
+    "C04": (
+        "Static decision of the write->read round trip's structure: writer key set == reader key set; per-region areas are "
+        "written as a mapping whenever a scalar would be lossy; the writer reads every document-derived field of Module, every "
+        "rectangle field and both net fields; the kind flags emitted for each consistent kind (partial evaluation of the writer) "
+        "decode to the same kind (partial evaluation of the constructor); order-preserving iteration on both sides; omission "
+        "constants (weight 1, ground region) equal the reader's defaults; writing has no effect beyond idempotent memos. Not "
+        "decided: ruamel's float formatting.",
+        _NOTE, "schema extraction + conditional constant propagation (CCP-TABLE) + effect analysis", "DESIGN.md 6/C04"),
+    "C05": (
+        "Static decision that each of the eleven ill-formed classes is refused by an assertion every offending item must pass "
+        "(loop/guard context checked; net arity by length-interval analysis through the weight stripping), and that derived "
+        "quantities are computed by their definitions (area sums, area-weighted centroid with x/y symmetry, wire length to the "
+        "mean of member centres times weight, rectangle lists). Not decided: numeric values.",
+        _NOTE, "obligation inventory on canonical forms + LEN interval analysis + LAW checks", "DESIGN.md 6/C05"),
+    "C19": (
+        "Static decision for every producer (die/allocation writers, netlist generator, FloorSet converter, normalisation and "
+        "legalisation netlists): emitted keys are accepted by the reader (incl. keys inside string templates and the FloorSet "
+        "copy of the keyword table), re-emitting stages read every attribute the format can carry, producers have no effect on "
+        "their inputs (interprocedural effect analysis with alias tracking), document values are definitely assigned within the "
+        "loop iteration, generated nets have >= 2 members, die/allocation tables have the reader's shape and defaults. Not "
+        "decided: field-by-field equality of reloaded objects.",
+        _NOTE, "schema extraction + interprocedural effect analysis + definite-assignment dataflow", "DESIGN.md 6/C19"),
     "C01": (
         "Static decision that an accepted die tiles: in Die.__init__ every write of a region list is followed on all paths by "
         "the self-check (found by role); the self-check asserts inside-the-die (both corners, both axes), non-overlap for all "
@@ -68,7 +90,7 @@ CLAIMED = {
 _PENDING = "rule set under construction in this round (see DESIGN.md section 6 for the planned structural clauses)"
 
 NOT_APPLICABLE = {
-    "C04": _PENDING, "C05": _PENDING, "C07": _PENDING,
+    "C07": _PENDING,
     "C08": _PENDING, "C09": _PENDING, "C10": _PENDING, "C13": _PENDING, "C14": _PENDING,
-    "C15": _PENDING, "C16": _PENDING, "C17": _PENDING, "C19": _PENDING, "C20": _PENDING,
+    "C15": _PENDING, "C16": _PENDING, "C17": _PENDING, "C20": _PENDING,
 }
